@@ -10,7 +10,7 @@ from usim import time, Scope, instant, first, collect, Concurrent
 
 from ..engine import EQ, GE, LE, LT, GT, AND, OR, NOT, IMPLIES, MAX, MIN
 from ..explore import Family
-from ..kit import Log, simulate, now, classify_run_exception, Fault, UserErr
+from ..kit import Log, simulate, now, classify_run_exception, Fault, UserErr, Payload
 
 BOUNDS = ('n<=3 activities, durations in [0,30]; optional failure of one activity at its date; '
           'first: count in {None, 0..n+1}, consumer prompt / slow (s in [0,20]) / break after '
@@ -32,7 +32,7 @@ def fam_collect(E, n, fault_kinds, failing=True, real=False, pmax=2):
         log(i, 'end')
         if i == bad:
             raise err
-        return ('value', i)
+        return Payload(('value', i))    # results of even-numbered activities are falsy
 
     def caller():
         async def run():
@@ -124,7 +124,7 @@ def fam_first(E, n, fault_kinds, counts, consumers, failing=False, real=False, p
         log(i, 'end')
         if i == bad:
             raise err
-        return ('value', i)
+        return Payload(('value', i))    # results of even-numbered activities are falsy
 
     def caller():
         async def run():
